@@ -551,22 +551,33 @@ func parseClosure(c *Ctx) []*ast.FuncDecl {
 	// dynamic type among {Object, List, string, nil, int, float64, bool}; the constructors those arms call are therefore not followed.
 	skip := map[string]bool{}
 	if pv := c.Decl("parseVal"); pv != nil {
-		if ts := findTypeSwitch(pv.Body); ts != nil {
-			for _, cl := range ts.Body.List {
-				cc := cl.(*ast.CaseClause)
-				for _, te := range cc.List {
-					if t := c.typeOf(te); t != nil && !c.isNil(te) {
-						switch t.Underlying().(type) {
-						case *types.Map, *types.Slice:
-							ast.Inspect(cc, func(n ast.Node) bool {
-								if call, ok := n.(*ast.CallExpr); ok {
-									if f := c.callee(call); f != nil && f.Pkg() == c.Types {
-										skip[f.Name()] = true
-									}
-								}
-								return true
-							})
+		// decided on parseVal's type-case paths (private helpers it is split into are inlined): the package functions called on the
+		// map/slice arms
+		x := c.NewSX()
+		delete(x.NoInline, "parseVal")
+		x.budget = 200000
+		if cps, why := c.typeCasePaths(pv, x, soleParam(c, pv)); why == "" {
+			for _, cp := range cps {
+				if cp.None || cp.IsNil || cp.T == nil {
+					continue
+				}
+				switch cp.T.Underlying().(type) {
+				case *types.Map, *types.Slice:
+					note := func(t Term) {
+						collectSubterms(t, func(u Term) {
+							if call, ok := u.(TCall); ok && call.Fun != nil && call.Fun.Pkg() == c.Types {
+								skip[call.Fun.Name()] = true
+							}
+						})
+					}
+					for _, st := range cp.Path.Steps {
+						if st.Call != nil {
+							note(*st.Call)
 						}
+						note(st.RHS)
+					}
+					for _, t := range cp.Path.Vals {
+						note(t)
 					}
 				}
 			}
@@ -590,8 +601,13 @@ func parseClosure(c *Ctx) []*ast.FuncDecl {
 	}
 	sort.Strings(order)
 	var out []*ast.FuncDecl
+	have := map[*ast.FuncDecl]bool{}
 	for _, n := range order {
-		if fd := c.Decl(n); fd != nil {
+		if i := strings.Index(n, "["); i > 0 {
+			n = n[:i] // an instance of a generic helper: its declaration
+		}
+		if fd := c.Decl(n); fd != nil && !have[fd] {
+			have[fd] = true
 			out = append(out, fd)
 		}
 	}
@@ -601,10 +617,32 @@ func parseClosure(c *Ctx) []*ast.FuncDecl {
 // parserCore: the functions that belong to the parser proper (not the container methods they call).
 func parserCore(c *Ctx) []*ast.FuncDecl {
 	var out []*ast.FuncDecl
+	// what is reached from the entry points without going through parseVal (the normaliser and whatever private helpers it is split
+	// into panic by design on unsupported Go types; which values reach it from the parser is decided at the Add/Set call sites)
+	a := c.E3()
+	reach := map[string]bool{}
+	var visit func(name string)
+	visit = func(name string) {
+		if reach[name] || name == "parseVal" {
+			return
+		}
+		reach[name] = true
+		if i := strings.Index(name, "["); i > 0 {
+			reach[name[:i]] = true
+		}
+		if fn := a.ByName(name); fn != nil {
+			for _, cal := range a.calleeNames(fn) {
+				visit(cal)
+			}
+		}
+	}
+	for _, e := range []string{"ParseList", "ParseObject", "ParseFile"} {
+		visit(e)
+	}
 	for _, fd := range parseClosure(c) {
 		if fd.Recv == nil {
 			n := fd.Name.Name
-			if n == "parseVal" || strings.HasPrefix(n, "New") || strings.HasPrefix(n, "new") {
+			if n == "parseVal" || strings.HasPrefix(n, "New") || strings.HasPrefix(n, "new") || !reach[declName(fd)] {
 				continue
 			}
 			out = append(out, fd)
@@ -616,7 +654,7 @@ func parserCore(c *Ctx) []*ast.FuncDecl {
 func c04Panics(c *Ctx) {
 	a := c.E3()
 	core := parserCore(c)
-	c.R.Floor("C04.R5", len(core), 4)
+	c.R.Floor("C04.R5", len(core), 3)
 	// parseField's possible result types
 	var fieldKinds []string
 	if pf := c.Decl("parseField"); pf != nil {
@@ -632,9 +670,15 @@ func c04Panics(c *Ctx) {
 	}
 	pvCases := map[string]bool{"nil": true}
 	if pv := c.Decl("parseVal"); pv != nil {
-		if ts := findTypeSwitch(pv.Body); ts != nil {
-			for _, t := range caseTypes(c, ts, func(types.Type) bool { return true }) {
-				pvCases[t] = true
+		// the Go types parseVal accepts: the type cases on its paths (helpers it is split into are inlined)
+		x := c.NewSX()
+		delete(x.NoInline, "parseVal")
+		x.budget = 200000
+		if cps, why := c.typeCasePaths(pv, x, soleParam(c, pv)); why == "" {
+			for _, cp := range cps {
+				if !cp.None && !cp.IsNil && cp.T != nil && cp.Path.End != "panic" {
+					pvCases[shortType(cp.T)] = true
+				}
 			}
 		}
 	}
@@ -933,6 +977,19 @@ func (c *Ctx) producerKinds(f *types.Func, pvCases map[string]bool, depth int) (
 		if t == nil {
 			return nil, "untyped result in " + f.Name()
 		}
+		if tup, ok := t.(*types.Tuple); ok && len(r.Results) == 1 && tup.Len() > 0 {
+			t = tup.At(0).Type() // return g(…): the first result of the forwarded call
+			if isEmptyIface(t) {
+				if call, isCall := unparen(e).(*ast.CallExpr); isCall && c.callee(call) != nil && c.callee(call).Pkg() == c.Types && depth < 3 {
+					ks, why := c.producerKinds(c.callee(call), pvCases, depth+1)
+					if why != "" {
+						return nil, why
+					}
+					kinds = append(kinds, ks...)
+					continue
+				}
+			}
+		}
 		if !isEmptyIface(t) {
 			kinds = append(kinds, shortType(t))
 			continue
@@ -946,7 +1003,7 @@ func (c *Ctx) producerKinds(f *types.Func, pvCases map[string]bool, depth int) (
 
 func c04Determinism(c *Ctx) {
 	core := parseClosure(c)
-	c.R.Floor("C04.R6", len(core), 7)
+	c.R.Floor("C04.R6", len(core), 3)
 	for _, fd := range core {
 		name := declName(fd)
 		why := ""
